@@ -1,6 +1,6 @@
 (* C03 — admin operations have exactly the requested effect, on the target only. *)
 From stdpp Require Import gmap.
-Require Import Model.Base Model.Validate Model.State Model.Staking Model.Slashing Model.Poa Model.App proofs.L1Effects proofs.InvHistory proofs.InvComet proofs.InvElig proofs.InvUpd.
+Require Import Model.Base Model.Validate Model.State Model.Staking Model.Slashing Model.Poa Model.App proofs.L1Effects proofs.InvHistory proofs.InvComet proofs.InvElig proofs.InvUpd proofs.InvFrame.
 
 (* the target gets exactly the requested tokens/shares/self-delegation and one index entry at the new power;
    x/staking's last powers (what CometBFT holds) are left for its EndBlocker to update *)
@@ -88,3 +88,40 @@ Proof.
   assert (v_tokens v / 1000000 <= 0); [|lia]. destruct (Z.le_gt_cases 0 (v_tokens v)); [rewrite Z.div_small by lia; lia|].
   apply Z.div_le_upper_bound; lia.
 Qed.
+
+(* no side effects on anybody's stake, in that block or in any later one: from any reachable state, through any number of
+   blocks that carry no SetPower, RemoveValidator or Unjail naming validator id — whatever they do to everybody else —
+   id's record keeps its consensus key, jailed flag, tokens, shares, minimum self-delegation, commission and description,
+   and its self-delegation is untouched (a record disappears only if it holds neither tokens nor shares: a removed
+   validator whose unbonding period ends); the one alternative is that slashing jailed it for downtime or punished it for
+   a double sign on the way, and then it is still jailed at the end, with its key and shares and no more tokens than it had *)
+Theorem C03_no_side_effects_on_anybodys_stake : forall g bs bs2 id,
+  wf_genesis g -> Forall (fun b => spares_txs id (b_txs b)) bs2 ->
+  let w := run_world (init_world g) bs in
+  block_rel (stk (w_chain w)) (stk (w_chain (run_world w bs2))) id.
+Proof. exact history_spared_validator. Qed.
+
+Theorem C03_spared_means : forall id txs,
+  spares_txs id txs <->
+  forall tx m, In tx txs -> In m tx ->
+    match m with MSetPower _ v _ _ | MRemoveValidator _ v | MUnjail v => v <> id | _ => True end.
+Proof.
+  intros id txs. unfold spares_txs, spares_tx. rewrite List.Forall_forall. split.
+  - intros H tx m Htx Hm. specialize (H tx Htx). rewrite List.Forall_forall in H. specialize (H m Hm).
+    destruct m; cbn in H; auto.
+  - intros H tx Htx. rewrite List.Forall_forall. intros m Hm. specialize (H tx m Htx Hm). destruct m; cbn; auto.
+Qed.
+
+(* in terms of seats (max_validators not binding at either end): such a validator has at the end the voting power it had at
+   the start — in particular a removed one, which has none, never returns unless the admin re-admits it — or it was jailed on
+   the way and has none *)
+Theorem C03_spared_validator_keeps_its_power : forall g bs bs2 id,
+  wf_genesis g -> Forall (fun b => spares_txs id (b_txs b)) bs2 ->
+  let w := run_world (init_world g) bs in
+  let w2 := run_world w bs2 in
+  w_halted w = None -> w_halted w2 = None ->
+  n_pos (pidx (stk (w_chain w))) <= sp_max_validators (params (stk (w_chain w))) ->
+  n_pos (pidx (stk (w_chain w2))) <= sp_max_validators (params (stk (w_chain w2))) ->
+  last_pow (stk (w_chain w2)) !! id = last_pow (stk (w_chain w)) !! id \/
+  (downed (stk (w_chain w)) (stk (w_chain w2)) id /\ last_pow (stk (w_chain w2)) !! id = None).
+Proof. exact spared_validator_keeps_its_power. Qed.
